@@ -306,7 +306,9 @@ def run(ctx):
         load += size
     if cur:
         files.append(cur)
-    texts = [("c15_replay_%03d" % i, HDR + "Definition cases : list tcase := [%s].\nEval vm_compute in (bad chk_macro cases).\n"
+    import os
+    tag = "%s_%d" % (ctx.tier, os.getpid())      # concurrent runs of this check must not share scratch files
+    texts = [("c15_replay_%s_%03d" % (tag, i), HDR + "Definition cases : list tcase := [%s].\nEval vm_compute in (bad chk_macro cases).\n"
               "Eval vm_compute in (bad chk_strict cases).\n" % ";\n".join(f), f) for i, f in enumerate(files)]
     res = ctx.coq_eval_many([(n_, t) for n_, t, _ in texts], timeout=1200)
     strict_bad = strict_total = macro_bad = macro_total = 0
@@ -319,6 +321,11 @@ def run(ctx):
             evalfail.setdefault("critical_section", out[-300:])
             continue
         bad_macro, bad_strict = ([int(x) for x in re.findall(r"-?\d+", re.sub(r"%[a-zA-Z]+", "", e))] for e in ev)
+        if not bad_macro:
+            try:
+                os.remove(os.path.join(ctx.rundir, name + ".v"))
+            except OSError:
+                pass
         macro_total += len(lines)
         macro_bad += len(bad_macro)
         if bad_macro and macro_eg is None:
